@@ -66,13 +66,33 @@ class Renderer:
             if "options::Options" in ins and f["output"].get("adt") == "std::string::String":
                 cands.append(lib.bodies[path])
         self.option_fns = sorted(b.name for b in cands)
-        with_push = [b for b in cands if any(cname(c.node) in ("std::string::String::push_str", "std::fmt::Write::write_fmt") for c in b.calls())]
+        def _emits_somewhere(b0):
+            if any(cname(c.node) in ("std::string::String::push_str", "std::fmt::Write::write_fmt") for c in b0.calls()):
+                return True
+            # through a private helper taking the accumulator
+            for c in b0.calls():
+                cb = lib.bodies.get(c.node["callee"].get("path"))
+                if cb is not None and cb.name != b0.name and any(x.get("s", "").startswith("&mut std::string::String") for x in lib.fns.get(cb.name, {}).get("inputs", [])):
+                    return True
+            return False
+        with_push = [b for b in cands if _emits_somewhere(b)]
         self.ok = len(with_push) == 1
         if not self.ok:
             self.problems.append("expected one emitting function with an &Options parameter, found %s" % [b.name for b in with_push])
             return
-        b = self.body = with_push[0]
+        b = with_push[0]
         f = lib.fns[b.name]
+        # look through private helpers that write into a caller-supplied String (extracted emission code)
+        self.helpers = set()
+
+        def emits(cb, t, _self=self):
+            ff = lib.fns.get(cb.name, {})
+            if ff.get("pub") or not any(x.get("s", "").startswith("&mut std::string::String") for x in ff.get("inputs", [])):
+                return False
+            _self.helpers.add(cb.name)
+            return True
+        self.orig_name = b.name
+        b = self.body = mir.inline_calls(lib, b, emits)
         self.opt_arg = [i for i, t in enumerate(f["inputs"]) if t.get("adt") == "options::Options"][0] + 1
         self.self_arg = 1
         self.entry = [x for x in cands if x is not b]
